@@ -1,5 +1,6 @@
 import Swim.Util.Parse
 import Swim.Model.Acks
+import Swim.Model.Handlers
 /-! Driver side of the C19 correspondences (virtual-time probe / relay scripts, score sequences). -/
 namespace Swim.Drv.C19
 open Swim.Parse Swim.Acks
@@ -67,8 +68,59 @@ def handleScore (fs : List (String × String)) : String := Id.run do
     | none => none
   return verdict (ms == ss) bad true "score" (if ms == ss then "" else s!"model={ms}")
 
+/-- the pending-acknowledgement table: `op>pending|events;...` replayed on `Swim.Handlers.step`.
+ops: `set:seq:timeoutMs:p|r`, `ack:seq`, `nack:seq`, `tick:ms`; pending = sequence numbers sorted, joined
+by `.`; events = `a<seq>` / `n<seq>` / `t<seq>` sorted, joined by `.` (`-` when empty) -/
+def handleTbl (fs : List (String × String)) : String := Id.run do
+  let opsS := splitNE (getD fs "ops" "") ";"
+  let mut t : Swim.Handlers.T := {}
+  let mut agree := true
+  let mut bad : Option String := none
+  let mut note := ""
+  let mut idx := 0
+  let mut evCount := 0
+  let sortNat (l : List Nat) : List Nat := (l.toArray.qsort (· < ·)).toList
+  let sortS (l : List String) : List String := (l.toArray.qsort (· < ·)).toList
+  for os in opsS do
+    let [tok, obs] := os.splitOn ">" | return s!"PARSE op{idx}"
+    let [pend, evs] := obs.splitOn "|" | return s!"PARSE obs{idx}"
+    let some op := (match tok.splitOn ":" with
+      | ["set", sq, tm, k] => do pure (Swim.Handlers.Op.set (← sq.toNat?) (← tm.toNat?) (if k == "p" then .probe else .relay))
+      | ["ack", sq] => do pure (Swim.Handlers.Op.ack (← sq.toNat?))
+      | ["nack", sq] => do pure (Swim.Handlers.Op.nack (← sq.toNat?))
+      | ["tick", d] => do pure (Swim.Handlers.Op.tick (← d.toNat?))
+      | _ => none) | return s!"PARSE tok{idx}:{tok}"
+    let implPend := sortNat ((splitNE pend ".").filterMap String.toNat?)
+    let implEvs := sortS ((splitNE evs ".").filter (· != "-"))
+    -- property, on the implementation's own observations: an ack / nack for a number that was not pending has no effect
+    let prePend := sortNat (t.hs.map (·.seq))
+    match op with
+    | .ack sq => if !prePend.contains sq && (!implEvs.isEmpty || implPend != prePend) && bad.isNone then
+        bad := some s!"ack-for-a-number-that-is-not-pending-had-an-effect:{sq}@op{idx}"
+    | .nack sq => if !prePend.contains sq && (!implEvs.isEmpty || implPend != prePend) && bad.isNone then
+        bad := some s!"nack-for-a-number-that-is-not-pending-had-an-effect:{sq}@op{idx}"
+    | _ => pure ()
+    let (t', mevs) := Swim.Handlers.step t op
+    let mPend := sortNat (t'.hs.map (·.seq))
+    let mEvs := sortS (mevs.map fun e => match e with
+      | .ack s => s!"a{s}" | .nack s => s!"n{s}" | .timeout s => s!"t{s}")
+    -- every record is gone by its deadline
+    if bad.isNone then
+      match t'.hs.find? (fun h => !(implPend.contains h.seq)) with
+      | _ => pure ()
+      if implPend.any (fun sq => !(mPend.contains sq)) then
+        bad := some s!"pending-record-outlived-its-deadline-or-its-ack@op{idx}:{tok}"
+    if mPend != implPend || mEvs != implEvs then
+      if agree then note := s!"op{idx}:{tok}:model(pending={mPend},events={mEvs})"
+      agree := false
+    evCount := evCount + implEvs.length
+    t := t'
+    idx := idx + 1
+  return verdict agree bad (evCount ≥ 2) s!"tbl-{min (idx / 5) 4}" note
+
 def handle (kind : String) (fs : List (String × String)) : String :=
   match kind with
+  | "tbl" => handleTbl fs
   | "probe" => handleProbe fs
   | "relay" => handleRelay fs
   | "score" => handleScore fs
